@@ -102,10 +102,13 @@ class SQuad(EditableModule):
         if y.shape[-1] != self.nx:
             raise RuntimeError("The length of integrated dimension does not match with x")
         res = self.obj.integrate(y)
-        if keepdim:
-            res = res.unsqueeze(-1)
+        # put back the integrated dimension (with size 1) at its original
+        # position before optionally removing it
+        res = res.unsqueeze(-1)
         if swapaxes:
             res = res.transpose(dim, -1)
+        if not keepdim:
+            res = res.squeeze(dim)
         return res
 
     def getparamnames(self, methodname: str, prefix: str = "") -> List[str]:
